@@ -175,6 +175,7 @@ class WorldB:
                             force_ssl_connect=force_ssl, **kw)
             if cfg.get('consumer_codings') is not None:
                 c.set_used_compression(*cfg['consumer_codings'])
+            self.last_consumer = c  # (reachable for the caller also if start_all raises)
             c.start_all(**(cfg.get('consumer_start_args') or {}))
             cm = None
             if init_mdib:
